@@ -29,7 +29,8 @@ EmitMod == atoi(IOEnv.MC_EMITMOD)
 EmitTRSel == \/ (Chk(A) + 7 * Chk(A') + Chk(B) + Len(A) + SeedVal) % EmitMod # 0
              \/ EmitTR
 
-MCValSeqs == [f \in {"sid", "tomo", "obj", "cls"} |-> { <<1>>, <<2>>, <<3>>, <<1, 2>>, <<2, 1>>, <<3, 1>> }]
+\* requested values: present, missing (3), several in either order, and the empty request
+MCValSeqs == [f \in {"sid", "tomo", "obj", "cls"} |-> { <<>>, <<1>>, <<2>>, <<3>>, <<1, 2>>, <<2, 1>>, <<3, 1>> }]
 MCSplitFields == {"sid", "tomo", "obj", "cls"}
 MCStarts == {1, 4}
 MCOrders == { <<"a">>, <<"b">>, <<"a", "b">>, <<"b", "a">>, <<"a", "b", "a2">>, <<"b", "a2", "a">>, <<"b", "a", "b2">>,
